@@ -3,6 +3,8 @@ CONSTANTS
   Mode = "ofat"
   Pads = {}
   BigNs = {}
+  PermA = 23
+  PermB = 13
 INIT Init
 NEXT Next
 INVARIANT Emit
